@@ -6,6 +6,8 @@ CONSTANTS
   CopyOnReturn = TRUE
   ResetCursor = FALSE
   MaxLists = 9
+  Modes <- ModesC
+  ClearDropsTokens = TRUE
   MaxSteps = 5
 INVARIANT HistoryFree
 INVARIANT CacheIntact
